@@ -234,6 +234,9 @@ func (s *decScope) ruleDIConst(rule string) {
 		for i, need := range s.collectLenNeeds(fn) {
 			key := fmt.Sprintf("%s index#%d %s%s", qname(fn), i+1, describeValue(need.v), need.what)
 			have := s.minLenAt(need.v, need.at.Block())
+			if have < 1 && fieldsOfTrimmedNonEmpty(need.v, need.at.Block()) {
+				have = 1
+			}
 			if have >= need.need {
 				c.ok(rule, key, need.at.Pos(), fmt.Sprintf("len >= %d is implied on every path (needs %d)", have, need.need))
 				continue
@@ -262,6 +265,10 @@ func (s *decScope) ruleDIConst(rule string) {
 						}
 						nSites++
 						if h := s.minLenAt(args[pi], in.Site.Block()); h < need.need {
+							if _, ok := diException(in.Caller.Func, lenNeed{v: args[pi], need: need.need}); ok {
+								// the caller's value is one of the named cross-function invariants
+								continue
+							}
 							okAll = false
 							detail = fmt.Sprintf("caller %s at %s only guarantees len >= %d", qname(in.Caller.Func), c.pos(in.Site.Pos()), h)
 						}
@@ -271,14 +278,14 @@ func (s *decScope) ruleDIConst(rule string) {
 					c.ok(rule, key, need.at.Pos(), fmt.Sprintf("every one of the %d call sites in the decoder scope guarantees len >= %d", nSites, need.need))
 					continue
 				}
-				if reason, ok := diException(qname(fn), need); ok {
+				if reason, ok := diException(fn, need); ok {
 					c.except(rule, key, need.at.Pos(), reason)
 					continue
 				}
 				c.bad(rule, key, need.at.Pos(), fmt.Sprintf("needs len >= %d of a parameter; %s", need.need, detail))
 				continue
 			}
-			if reason, ok := diException(qname(fn), need); ok {
+			if reason, ok := diException(fn, need); ok {
 				c.except(rule, key, need.at.Pos(), reason)
 				continue
 			}
@@ -309,16 +316,62 @@ func describeValue(v ssa.Value) string {
 	return v.Name()
 }
 
+// fieldsOfTrimmedNonEmpty: v is strings.Fields(x) where x is the result of
+// strings.TrimSpace and the facts at b say x is not empty: a trimmed non-empty
+// string starts with a non-space rune, so it has at least one field.
+func fieldsOfTrimmedNonEmpty(v ssa.Value, b *ssa.BasicBlock) bool {
+	isStringsCall := func(v ssa.Value, name string) (*ssa.Call, bool) {
+		call, ok := v.(*ssa.Call)
+		if !ok {
+			return nil, false
+		}
+		callee := call.Call.StaticCallee()
+		if callee == nil || callee.Name() != name || pkgPathOf(callee) != "strings" || len(call.Call.Args) != 1 {
+			return nil, false
+		}
+		return call, true
+	}
+	fields, ok := isStringsCall(v, "Fields")
+	if !ok {
+		return false
+	}
+	x := fields.Call.Args[0]
+	if _, ok := isStringsCall(x, "TrimSpace"); !ok {
+		return false
+	}
+	for _, f := range factsAt(b) {
+		be, ok := f.cond.(*ssa.BinOp)
+		if !ok {
+			continue
+		}
+		neq := (be.Op == token.NEQ && f.taken) || (be.Op == token.EQL && !f.taken)
+		gtr := be.Op == token.GTR && f.taken
+		if isLenOf(be.X, x) {
+			if z, isC := constInt(be.Y); isC && z == 0 && (neq || gtr) {
+				return true
+			}
+		}
+		if be.X == x && neq {
+			if k, ok := be.Y.(*ssa.Const); ok && k.Value != nil && k.Value.ExactString() == `""` {
+				return true
+			}
+		}
+	}
+	return false
+}
+
 // diException: one named construct + reason each.
-func diException(fn string, need lenNeed) (string, bool) {
+func diException(f *ssa.Function, need lenNeed) (string, bool) {
 	d := describeValue(need.v)
+	// keyed by the package and the value, not by the function name, so that a
+	// helper extracted from readColorPLY stays covered
+	fn := ""
+	if pkgPathOf(f) == repoMod+"/model3d" && strings.HasSuffix(f.Prog.Fset.Position(f.Pos()).Filename, "import.go") {
+		fn = "model3d.readColorPLY"
+	}
 	switch {
-	case fn == "(*fileformats.PLYReader).Read" && d == "strings.Fields()" && need.need == 1:
-		return "line was trimmed by strings.TrimSpace and len(line) > 0 is tested in the same condition, so it contains a non-space rune and strings.Fields(line) is non-empty", true
 	case fn == "model3d.readColorPLY" && strings.Contains(d, "Read()#0") && need.need == 1:
 		return "rows have one value per declared property (decodeInstance makes len(p.Properties) values; DV) and IsStandardFace admits face elements with exactly one property (DT.FACE)", true
-	case fn == "(fileformats.PLYPropertyType).DecodeBinary" && d == "data" && need.need == 1:
-		return "len(data) == p.Size() is tested at entry and Size() >= 1 for every case label (DX.SIZE), so the one-byte cases see exactly one byte", true
 	case fn == "model3d.readColorPLY" && d == ".Values" && need.need <= 3:
 		return "the list has exactly Length values (decodeInstance appends intLen values) and Length == 3 is tested before the indexing (DT.FACE)", true
 	}
@@ -820,6 +873,13 @@ func (s *decScope) ruleDICounter(rule string) {
 					if !ok || be.X != ssa.Value(phi) {
 						continue
 					}
+					if lc, ok := be.Y.(*ssa.Call); ok && ((be.Op == token.LSS && f.taken) || (be.Op == token.GEQ && !f.taken)) {
+						if bi, isB := lc.Call.Value.(*ssa.Builtin); isB && bi.Name() == "len" {
+							if ok, _ := sliceLenAtMost(fn, lc.Call.Args[0], b, L); ok {
+								bounded = true
+							}
+						}
+					}
 					k, isC := constInt(be.Y)
 					if !isC || k > L {
 						continue
@@ -883,42 +943,7 @@ func (s *decScope) ruleDIRange(rule string) {
 				}
 				n++
 				key := fmt.Sprintf("%s range index#%d into [%d]", qname(fn), n, arr.Len())
-				ok1 := false
-				why := ""
-				for _, f := range factsAt(b) {
-					be, isB := f.cond.(*ssa.BinOp)
-					if !isB {
-						continue
-					}
-					x, y, op := be.X, be.Y, be.Op
-					if isLenOf(y, seq) {
-						x, y = y, x
-						op = map[token.Token]token.Token{token.LSS: token.GTR, token.GTR: token.LSS, token.LEQ: token.GEQ, token.GEQ: token.LEQ, token.EQL: token.EQL, token.NEQ: token.NEQ}[op]
-					}
-					if !isLenOf(x, seq) {
-						continue
-					}
-					k, isC := constInt(y)
-					if !isC {
-						continue
-					}
-					switch {
-					case op == token.EQL && f.taken && k <= arr.Len(), op == token.NEQ && !f.taken && k <= arr.Len(),
-						op == token.LEQ && f.taken && k <= arr.Len(), op == token.GTR && !f.taken && k <= arr.Len(),
-						op == token.LSS && f.taken && k <= arr.Len()+1, op == token.GEQ && !f.taken && k <= arr.Len()+1:
-						ok1, why = true, "a dominating test bounds the length of the ranged slice by the array length"
-					}
-				}
-				if !ok1 {
-					if k, known := sliceExprLen(seq); known && k <= arr.Len() {
-						ok1, why = true, fmt.Sprintf("the ranged slice expression has exactly %d elements", k)
-					}
-				}
-				if !ok1 {
-					if k, found := csvFieldsPerRecord(fn, seq); found && k == arr.Len() {
-						ok1, why = true, fmt.Sprintf("the record comes from an encoding/csv reader that this package always configures with FieldsPerRecord = %d", k)
-					}
-				}
+				ok1, why := sliceLenAtMost(fn, seq, b, arr.Len())
 				if ok1 {
 					c.ok(rule, key, ia.Pos(), why)
 				} else {
@@ -927,6 +952,44 @@ func (s *decScope) ruleDIRange(rule string) {
 			}
 		}
 	}
+}
+
+// sliceLenAtMost: at block b, the slice seq has at most N elements — by a
+// dominating test of its length, as a slice expression of constant length, or
+// as a record of an encoding/csv reader always configured with
+// FieldsPerRecord = N.
+func sliceLenAtMost(fn *ssa.Function, seq ssa.Value, b *ssa.BasicBlock, N int64) (bool, string) {
+	for _, f := range factsAt(b) {
+		be, isB := f.cond.(*ssa.BinOp)
+		if !isB {
+			continue
+		}
+		x, y, op := be.X, be.Y, be.Op
+		if isLenOf(y, seq) {
+			x, y = y, x
+			op = map[token.Token]token.Token{token.LSS: token.GTR, token.GTR: token.LSS, token.LEQ: token.GEQ, token.GEQ: token.LEQ, token.EQL: token.EQL, token.NEQ: token.NEQ}[op]
+		}
+		if !isLenOf(x, seq) {
+			continue
+		}
+		k, isC := constInt(y)
+		if !isC {
+			continue
+		}
+		switch {
+		case op == token.EQL && f.taken && k <= N, op == token.NEQ && !f.taken && k <= N,
+			op == token.LEQ && f.taken && k <= N, op == token.GTR && !f.taken && k <= N,
+			op == token.LSS && f.taken && k <= N+1, op == token.GEQ && !f.taken && k <= N+1:
+			return true, "a dominating test bounds the length of the slice by the array length"
+		}
+	}
+	if k, known := sliceExprLen(seq); known && k <= N {
+		return true, fmt.Sprintf("the slice expression has exactly %d elements", k)
+	}
+	if k, found := csvFieldsPerRecord(fn, seq); found && k == N {
+		return true, fmt.Sprintf("the record comes from an encoding/csv reader that this package always configures with FieldsPerRecord = %d", k)
+	}
+	return false, ""
 }
 
 // rangedSlice: idx is the index variable of `for i, x := range S` over a slice;
